@@ -116,12 +116,14 @@ func TestEarlyClose(t *testing.T) {
 		for conc := 0; conc <= 3; conc++ {
 			for after := 0; after <= 2; after++ {
 				for _, dial := range []bool{false, true} {
-					core.RunCase(t, "early", Early{ClosesBefore: before, Concurrent: conc, ClosesAfter: after, Dial: dial}, RunEarly)
+					for acc := 0; acc <= 2; acc++ {
+						core.RunCase(t, "early", Early{ClosesBefore: before, Concurrent: conc, ClosesAfter: after, Dial: dial, AcceptErr: acc}, RunEarly)
+					}
 				}
 			}
 		}
 	}
-	core.MarkExhaustive("early (0..2 Close calls before Serve x 0..3 racing with its start x 0..2 after, with/without a pending client)")
+	core.MarkExhaustive("early (0..2 Close calls before Serve x 0..3 racing with its start x 0..2 after, with/without a pending client, Accept failing before / after the loop is parked)")
 }
 
 func TestReplayEarly(t *testing.T) {
